@@ -71,6 +71,7 @@ type smModel struct {
 	behind   []smPacket // peer packets queued behind a message nobody consumed yet
 	emitted  []RPacket  // packets expected on the wire, in order
 	verdict  map[int]string // per peer packet (by arrival index): "nil" or "fatal"
+	cancelled bool      // cancelled by the peer (cancel packet) or locally (Cancel / SendCancel)
 	manual   bool       // ManualFlush: messages stay buffered until something flushes
 	pending  []RPacket  // buffered, not yet on the wire
 }
@@ -154,6 +155,9 @@ func (m *smModel) process(p smPacket) string {
 		}
 		m.terminate(rEOF, rRemote)
 	case kCancel:
+		if !m.term {
+			m.cancelled = true
+		}
 		m.terminate(rEOF, rCancel)
 	case kInvoke:
 		m.terminate(rOther, rOther)
@@ -205,6 +209,8 @@ func (m *smModel) call(ev smEvent, sid uint64) string {
 		switch {
 		case len(m.pending) == 0:
 			return rNil
+		case m.cancelled:
+			return rCancel // a flush on a cancelled stream reports the cancellation
 		case m.sendErr != "":
 			return rOther // nothing may reach the wire once the send side is closed or the stream terminated
 		}
@@ -259,6 +265,7 @@ func (m *smModel) call(ev smEvent, sid uint64) string {
 		if m.term {
 			return "any"
 		}
+		m.cancelled = true
 		m.terminate(rEOF, rCancel)
 		return "any"
 	}
@@ -463,6 +470,10 @@ func runE2(spec RunSpec, ch *Choices) *RunResult {
 	}
 	// invariant at every step: a finished stream has no write in flight
 	x.d.AfterStep = func() bool {
+		// ... and the stream's context is done only once the stream is finished
+		if x.st != nil && sigClosed(x.st.Context().Done()) && !sigClosed(x.st.Finished()) {
+			x.viol("finished-early", "stream context is done before the stream is finished (an operation may still be in flight)", "")
+		}
 		if x.st != nil && sigClosed(x.st.Finished()) {
 			for _, t := range x.rt.Tasks() {
 				if t.State != verifsim.StExited && strings.HasPrefix(t.Label, "net.write") {
@@ -790,6 +801,29 @@ func (x *e2) runConcurrent() {
 		return
 	}
 	_ = emitAtTermCheck
+	// half-closed on both sides means terminated: a CloseSend of ours returned nil
+	// and the peer's half-close was handled (the feeder is done with its packets)
+	{
+		ourClose, peerClose, feederDone := false, false, true
+		for _, r := range results {
+			if r.ev.Op == "closesend" && r.class == rNil && r.end > 0 {
+				ourClose = true
+			}
+		}
+		for _, p := range pkts {
+			if p.Kind == kCloseSend && !p.Foreign {
+				peerClose = true
+			}
+		}
+		for _, t := range x.rt.Tasks() {
+			if t.Name == "feeder" && t.State != verifsim.StExited {
+				feederDone = false
+			}
+		}
+		if ourClose && peerClose && feederDone && !sigClosed(x.st.Terminated()) {
+			x.viol("concurrent", "stream half-closed by both sides is not terminated", "")
+		}
+	}
 	// a final Close makes sure the stream terminates, then everything must settle
 	x.rt.Spawn("finalizer", func() {
 		verifsim.Yield(verifsim.ClassApp, "final close")
